@@ -454,7 +454,15 @@ func (vfs *BasePathFS) Rename(oldname, newname string) error {
 		return &os.LinkError{Op: op, Old: oldname, New: newname, Err: vfs.errRootDir()}
 	}
 
-	err := vfs.baseFS.Rename(oldBasePath, vfs.ToBasePath(newname))
+	newBasePath := vfs.ToBasePath(newname)
+	if newBasePath == vfs.basePath {
+		// The root directory always exists : nothing can be renamed onto it.
+		// The base path itself is never handed to the base file system as a name to replace
+		// (when it is a symbolic link, the link would be replaced, not the directory).
+		return &os.LinkError{Op: op, Old: oldname, New: newname, Err: vfs.errRootExists()}
+	}
+
+	err := vfs.baseFS.Rename(oldBasePath, newBasePath)
 
 	return vfs.FromLinkError(err)
 }
